@@ -7,11 +7,15 @@ from harness import gen
 from harness.framework import Suite
 
 PID = "C06"
-LEAN_MODS = ["SwcVerif.Props.C06"]
+LEAN_MODS = ["SwcVerif.Props.C06", "SwcVerif.Props.C06Gen"]
+TRANSLATE_ALGO = ["AlgoSubtree"]       # Gen/AlgoSubtree.lean is regenerated from swc_utils/subtree.py::to_sub_topology on every run
+DRIVER_FILES = ["SwcVerif/Model/AlgoRun.lean"]
 THEOREMS = [
     "C06.toSubTopology_spec", "C06.toSubTopology_ok_iff", "C06.attrs_preserved", "C06.subtree_nodes", "C06.propagate_marks",
     "C06.removedSet_all", "C06.removedSet_sound", "C06.toSubtree_kept", "C06.cutEnter_removed", "C06.cutLeave_removed",
     "C06.cutByType_kept", "C06.cutByOrder_rule", "C06.isFurcation_iff", "C06.cutShortTip_removed",
+    # refinement: the definition generated from to_sub_topology on this run equals the model (KeyError included)
+    "RefineSub.toSubTopology_refines", "C06.generated_toSubTopology_eq_model",
 ]
 TRUSTED = ["hand-written models Model/Subtree.lean of to_sub_topology / propagate_removal / get_subtree_impl / to_subtree / cut_tree / CutByType / "
            "CutByFurcationOrder / CutShortTipBranch (tied by the c06.ops correspondence: new parents and new→old mapping compared exactly)"]
@@ -505,11 +509,83 @@ class Ops(Suite):
         return case["class"].split("/")[-1] + ("/raised" if "exc" in res else "")
 
 
-SUITES = [Ops()]
+class SubTopo(Suite):
+    """`swc_utils.to_sub_topology` called directly on marked tables: the compaction step behind every extraction / cut, against the
+    hand-written model AND the definition generated from the source on this run (translator cross-check)."""
+    name = "c06.subtopo"
+
+    def cases(self, rng, tier, widen):
+        out = []
+        big = tier == "thorough" or widen
+        for k in range(240 if big else 60):
+            n = rng.choice([1, 2, 3, 5, 8, 13, 30])
+            pids = gen.parents_sorted(rng, n, gen.pick_shape(rng, k))
+            n = len(pids)
+            ids = list(range(n))
+            kind = k % 4
+            marked = set()
+            if kind == 0 and n > 1:          # whole subtrees removed (what propagate_removal produces): always succeeds
+                for v in rng.sample(range(1, n), rng.randint(1, min(3, n - 1))):
+                    marked.add(v)
+                for i in range(n):
+                    if pids[i] in marked:
+                        marked.add(i)
+            elif kind == 1 and n > 2:        # arbitrary marks: a kept row may lose its parent (KeyError)
+                marked = set(rng.sample(range(1, n), rng.randint(1, n - 1)))
+            elif kind == 2:                  # a sub table in extraction order (ids are old ids in enter order, first pid -1)
+                perm = list(range(n)); rng.shuffle(perm)
+                ids = [perm[i] for i in range(n)]
+                pids = [-1 if p == -1 else perm[p] for p in pids]
+            sub_id = [-2 if i in marked else ids[i] for i in range(n)]
+            out.append({"class": ["subtrees", "arbitrary", "relabelled", "nothing"][kind], "ids": sub_id, "pids": pids})
+        return out
+
+    def run(self, case):
+        from swcgeom.core.swc_utils import to_sub_topology
+
+        ids = np.array(case["ids"], dtype=np.int32); pids = np.array(case["pids"], dtype=np.int32)
+        before = (ids.copy(), pids.copy())
+        (new_id, new_pid), mapping = to_sub_topology((ids, pids))
+        return {"new_id": [int(v) for v in new_id], "new_pid": [int(v) for v in new_pid], "mapping": [int(v) for v in mapping],
+                "inputs_unchanged": bool(np.array_equal(before[0], ids) and np.array_equal(before[1], pids))}
+
+    def lines(self, case, res):
+        a = f"ids={gen.ints(case['ids'])} pids={gen.ints(case['pids'])}"
+        want = "E" if res.get("exc") == "KeyError" else (None if "exc" in res else f"{gen.ints(res['new_pid']).replace('_', '')} / {gen.ints(res['mapping']).replace('_', '')}")
+        if want is None:
+            return []
+        return [("subtopo " + a, want), ("gsubtopo " + a, want)]
+
+    def oracle(self, case, res):
+        ids, pids = case["ids"], case["pids"]
+        kept = [k for k in range(len(ids)) if ids[k] != -2]
+        kept_ids = [ids[k] for k in kept]
+        orphan = [ids[k] for k in kept if pids[k] != -1 and pids[k] not in kept_ids]
+        if "exc" in res:
+            if res["exc"] == "KeyError" and orphan:
+                return []                    # a kept row whose parent was dropped: the documented misuse, rejected loudly
+            return [("subtopo-raises", f"to_sub_topology raised {res['exc']}: {res.get('msg')} on ids={ids} pids={pids}")]
+        out = []
+        if orphan:
+            out.append(("subtopo-orphan-accepted", f"kept rows {orphan} lost their parent but a table was returned (ids={ids} pids={pids})"))
+            return out
+        if res["mapping"] != kept_ids or res["new_id"] != list(range(len(kept))):
+            out.append(("subtopo-mapping", f"mapping {res['mapping']} / new ids {res['new_id']}, kept old ids are {kept_ids}"))
+        want = [-1 if pids[k] == -1 else kept_ids.index(pids[k]) for k in kept]
+        if res["new_pid"] != want:
+            out.append(("subtopo-parents", f"new parents {res['new_pid']}, the kept rows' parents renumbered are {want} (ids={ids} pids={pids})"))
+        if not res["inputs_unchanged"]:
+            out.append(("subtopo-mutates-input", "to_sub_topology modified its argument"))
+        return out
+
+
+SUITES = [Ops(), SubTopo()]
 TECHNIQUE = ("Lean 4 theorems by structural induction (via C04's loop = recursion theorem) about the models of get_subtree / to_sub_topology / "
              "propagate_removal / cut_tree / CutByType / CutByFurcationOrder / CutShortTipBranch + differential correspondence (new parents and "
-             "new→old mapping compared exactly) + an oracle that evaluates each rule literally")
+             "new→old mapping compared exactly) + an oracle that evaluates each rule literally; to_sub_topology (the compaction / parent remap / mapping step behind every extraction "
+             "and cut) is TRANSLATED from the current source on every run (harness/translate_algo.py → Gen/AlgoSubtree.lean) and proved equal to its model, KeyError included "
+             "(RefineSub.toSubTopology_refines)")
 LEVEL_TEXT = ("Kernel-checked for every tree shape and numbering: the kept rows are exactly the designated nodes, the compaction renumbers them 0..m-1 in order, "
               "every kept non-root row's new parent is the new id of its old parent, the new root has none, the mapping lists the old ids, every column is read "
               "through the mapping. Removal marks reach exactly the descendants of marked nodes.")
-LEVEL_NOTE = "Trusted: Lean kernel; hand-written callback models tied by correspondence (exhaustive for all sorted trees with n ≤ 4/5); numpy fancy indexing."
+LEVEL_NOTE = "Trusted: Lean kernel; the imperative translator and its semantics library Model/Py.lean for to_sub_topology (cross-checked by running the generated definition); hand-written callback models tied by correspondence (exhaustive for all sorted trees with n ≤ 4/5); numpy fancy indexing."
